@@ -217,6 +217,19 @@ func main() {
 		}
 		rs = append(rs, rsaScen{L: l, K: k, Pick: pick})
 	}
+	// always: high player indices with large thresholds (the powers index^(k-1) of the sharing polynomial get large), t = n - 1, the top players
+	for _, lk := range [][2]int{{20, 16}, {17, 17}, {30, 13}, {40, 13}, {24, 23}} {
+		l, k := lk[0], lk[1]
+		top := make([]int, k)
+		for j := range top {
+			top[j] = l - j
+		}
+		rs = append(rs, rsaScen{L: l, K: k, Pick: top})
+		if k < l { // the lowest player instead of the second highest
+			mixed := append([]int{l, 1}, top[2:]...)
+			rs = append(rs, rsaScen{L: l, K: k, Pick: mixed})
+		}
+	}
 	key, err := rsa.GenerateKey(vlib.SeededReader{R: rng}, *bits)
 	if err != nil {
 		vlib.Die("rsa.GenerateKey: %v", err)
